@@ -543,9 +543,6 @@ def skip_present(rep):
     fn = S.function(TIME, "over_time")
     B.FUNCS.clear()
     B.FUNCS.update({f.name: f for f in S.module(TIME).body if isinstance(f, ast.FunctionDef)})
-    for par in ast.walk(fn):
-        for ch in ast.iter_child_nodes(par):
-            ch._parent = par
     key = f"{TIME}::over_time"
 
     def appended(node, lst):
